@@ -82,7 +82,8 @@ def run_case(case, keep_world=False, monitors=None):
                 mon.attach(w, case)
         if case.get('crash'):
             c = case['crash']
-            w.plan_crash(c['pid'] % cfg.m, c['step'], c.get('how', 'fin'), c.get('cut_frac'))
+            w.plan_crash(c['pid'] % cfg.m, c['step'], c.get('how', 'fin'), c.get('cut_frac'),
+                         link=None if c.get('link') is None else c['link'] % cfg.m)
         prog = case['prog']
         w.case_prog = prog
 
